@@ -17,7 +17,7 @@ def _clear_caches(ns_):
             cc_()
 
 PROPERTY = "C14"
-REGIONS = ["empty-priority-dictionary", "defaulted-xor", "defaulted-any", "no-default", "user-positive", "user-negative", "user-tie", "two-levels", "user-zero", "user-on-compound",
+REGIONS = ["through-select", "second-select-on-the-same-object", "empty-priority-dictionary", "defaulted-xor", "defaulted-any", "no-default", "user-positive", "user-negative", "user-tie", "two-levels", "user-zero", "user-on-compound",
            "prio-minus-2-column", "key-strictly-ordered-pair-exists"]
 BOUNDS = ("CFG family: configurators with defaulted/plain cc.Any and cc.Xor, AtMost, All, Any, Xor, Imply rules, nesting <=2, <=6 boolean items, "
           "<=16 columns (concrete: the model crosses the Rust encoder, M7); priority dictionary over <=3 seeded ids with symbolic values |p|<=20 "
@@ -47,6 +47,12 @@ def instantiations(tier, seed):
                 keys[-1] = rng.choice([i for i in cids if i != c["id"]] or cids)
             out.append({"model": c, "prio_keys": keys})
         out.append({"model": c, "prio_keys": []})       # the empty priority dictionary: defaults and stinginess alone decide
+        if its:
+            # the objective as the solver receives it from select(); and the same after an earlier select() on the same object
+            keys2 = rng.sample(its, min(len(its), 2))
+            out.append({"model": c, "prio_keys": keys2, "via": "select"})
+            if k % 2 == 0 or tier == "thorough":
+                out.append({"model": c, "prio_keys": keys2, "via": "select", "repeat": True})
     from sx.families import V, AM
     base = cfg.SC(cfg.cAny(V("a"), V("b"), id="A", default=["a"]), AM(3, V("d"), V("e"), V("f"), id="M"))
     for mu in ("ignore_defaults", "user_below_defaults"):
@@ -93,7 +99,11 @@ def run_inst(spec, run):
     stub = ffi.install(ns.pnd)
     try:
         def fn(ctx):
-            prios = {k: ctx.int("p_%s" % k, -20, 20) for k in keys}
+            rep = bool(spec.get("repeat"))
+            if rep:
+                ctx.preregister([-2, -1, 0, 1, 2])
+            prios = {k: ctx.int("p_%s" % k, *((-2, 2) if rep else (-20, 20))) for k in keys}
+            prios0 = {k: ctx.int("q_%s" % k, -2, 2) for k in keys} if rep else None
             x = [ctx.int("x%d" % j, 0, 1) for j in range(len(cols))]
             y = [ctx.int("y%d" % j, 0, 1) for j in range(len(cols))]
             for vec in (x, y):
@@ -102,19 +112,37 @@ def run_inst(spec, run):
             _clear_caches(ns)
             c1 = pl.build(ns, model_spec, {})
             err = w = None
+            got = []
+
+            def rec(Pm, objs):
+                # the harness is the solver: it records the objectives it is handed and reports "no solution"
+                got.append(np.asarray([list(o) for o in objs], dtype=object))
+                return [(None, 0, 4) for _ in got[-1]]
             try:
                 P = c1.ge_polyhedron
-                w = P._vectors_from_prios([dict(prios)])
+                if spec.get("via") == "select":
+                    if rep:
+                        # an earlier select() on the same object with another dictionary over the same ids; hash values in decided mode, so that
+                        # -1 and -2 hash alike inside the code under test as they do in CPython
+                        S.HASH_MODE = "decided"
+                        list(P.select(dict(prios0), solver=rec))
+                    list(P.select(dict(prios), solver=rec))
+                    w = got[-1]
+                else:
+                    w = P._vectors_from_prios([dict(prios)])
             except Exception as e:   # noqa
                 err = "%s: %s" % (type(e).__name__, e)
-            return dict(prios=prios, x=x, y=y, w=w, err=err)
+            finally:
+                S.HASH_MODE = "structural"
+            return dict(prios=prios, prios0=prios0, x=x, y=y, w=w, err=err)
 
         def on_path(ctx, d):
             run.path(ctx)
             prios, x, y = d["prios"], d["x"], d["y"]
 
             def conc(m):
-                return {"prios": {k: S.model_int(m, v) for k, v in prios.items()}, "x": [S.model_int(m, v) for v in x], "y": [S.model_int(m, v) for v in y]}
+                return {"prios": {k: S.model_int(m, v) for k, v in prios.items()}, "x": [S.model_int(m, v) for v in x], "y": [S.model_int(m, v) for v in y],
+                        "prios0": None if d["prios0"] is None else {k: S.model_int(m, v) for k, v in d["prios0"].items()}}
             if d["err"] is not None:
                 run.obligation(ctx, "raises", True, conc, extra=d["err"])
                 return
@@ -189,8 +217,15 @@ def run_inst(spec, run):
             if len(tops) == 1 and sum(1 for k in user if abs(pm[k]) == mags[0]) == 1:
                 j = ci[tops[0]]
                 run.obligation(ctx, "top-priority-item-wins", z3.And(x[j].e == 1, y[j].e == 0, wy >= wx), conc)
-            run.validate(ctx, lambda m: {"prios": {k: S.model_int(m, v) for k, v in prios.items()}, "x": [0] * len(cols), "y": [0] * len(cols)},
-                         lambda m: {"w": wv})
+            if spec.get("via") == "select":
+                run.region("through-select")
+            ext = None
+            if d["prios0"] is not None:
+                run.region("second-select-on-the-same-object")
+                ext = z3.Or([z3.Or(z3.And(prios[k].e == -1, d["prios0"][k].e == -2), z3.And(prios[k].e == -2, d["prios0"][k].e == -1)) for k in keys])
+            run.validate(ctx, lambda m: {"prios": {k: S.model_int(m, v) for k, v in prios.items()}, "x": [0] * len(cols), "y": [0] * len(cols),
+                                         "prios0": None if d["prios0"] is None else {k: S.model_int(m, v) for k, v in d["prios0"].items()}},
+                         lambda m: {"w": wv}, extremes=ext)
             run.sample({"model": pl.show(model_spec), "columns": [str(c)[:10] for c in cols], "prio_keys": keys, "objective": wv,
                         "path_condition": [str(z3.simplify(c)) for c in ctx.pc][:6]})
 
